@@ -1,5 +1,6 @@
 mod arith;
 mod drive;
+mod migrate;
 mod pb;
 mod proj;
 mod qsweep;
@@ -192,6 +193,23 @@ fn main() {
                 }
             }
             println!("{}", json!({"records": n}));
+        }
+        Some("migvec") => {
+            // migvec <seed> <histories> <out>
+            use std::io::Write;
+            let seed: u64 = args[2].parse().unwrap();
+            let n: u64 = args[3].parse().unwrap();
+            let mut out = std::io::BufWriter::new(std::fs::File::create(&args[4]).unwrap());
+            let recs = migrate::records(seed, n);
+            for r in &recs {
+                let mut r = r.clone();
+                // independent semver reading of the stored version: [major, minor, patch, is_release] or []
+                if let Some(v) = r.get("version").and_then(|x| x.as_str()) {
+                    r["vp"] = migrate::semver_triple(v);
+                }
+                writeln!(out, "{}", r).unwrap();
+            }
+            println!("{}", json!({"records": recs.len()}));
         }
         Some("hookvec") => {
             // hookvec <seed> <n> <out>: the contract's derive_intermediate_sender next to the simulator's own
